@@ -65,6 +65,7 @@ type Obligation struct {
 	Known   *KnownFinding
 	vc      *VC
 	env     *Env
+	fr      *Frame
 	knownPart string
 }
 
